@@ -157,12 +157,13 @@ var plans = map[string]Plan{
 	},
 	"C20": {
 		Level: "exploration",
-		Rule: "cases are (base multi-file Thrift program, edit script) committed as HEAD~ and HEAD of a scratch git repository: 1-5 files in nested directories with includes along a DAG; 0-7 edits drawn from 5 breaking kinds (remove service, remove method, add required field to an existing struct, optional->required, change a field's declared type name) and 14 compatible kinds (add optional field / method / service / struct / enum / constant / typedef / file / include, reorder, required->optional, delete struct, delete file, remove include); 13+3 enumerated pairs. The real thriftbreak binary is run in readable and --json mode (and again on reordered renderings). " +
+		Rule: "cases are (base multi-file Thrift program, edit script) committed as HEAD~ and HEAD of a scratch git repository: 1-5 files in nested directories with includes along a DAG; 0-7 edits drawn from 5 breaking kinds (remove service, remove method, add required field to an existing struct, optional->required on fields without a default and on fields whose old version carried a default value (the default is dropped with the edit), change a field's declared type name) and 14 compatible kinds (add optional field / method / service / struct / enum / constant / typedef / file / include, reorder, required->optional, delete struct, delete file, remove include); 15+3 enumerated pairs. The real thriftbreak binary is run in readable and --json mode (and again on reordered renderings). " +
 			"Oracle: multiset of (file, kind, subject names) parsed from the output == the multiset known by construction from the edit script; exit status != 0 iff non-empty. " +
 			"Non-trivial: >=1 breaking edit or >=2 compatible edits. Distinct: SHA-256 of the JSON case (all file texts of both versions).",
 		Assumptions: []string{
 			"the five message phrases and %q-quoted names are the tool's interface; a file attribution is correct if it is the repo-relative path or the base name",
 			"ambiguous edits (a name moved between files, required field added with a default, renames) are not generated",
+			"a field declared `required` together with a default value is compiled as not required by thriftrw; edits that end in (or start from) that shape are not generated because the statement does not say whether they count as 'required'",
 		},
 		Prebuild: []Prebuild{{Name: "thriftbreak", Pkg: "go.uber.org/thriftrw/cmd/thriftbreak"}},
 		Units: []Unit{
